@@ -49,3 +49,34 @@ Proof.
   apply forallb_forall. intros r Hr. rewrite Forall_forall in F.
   destruct (F (cr_obs r) (in_map cr_obs _ _ Hr)) as [Hex Hall]. apply slots_ok_complete; assumption.
 Qed.
+
+(** ** FIFO clause *)
+From Akita Require Import C15.Proofs5.
+
+Lemma accepted_of_ids a f : map fst (accepted_of a f) = accepted_ids a f.
+Proof.
+  revert f. induction a as [|x a IH]; intros [|[|] f]; cbn [accepted_of accepted_ids map]; try reflexivity.
+  - f_equal. apply IH.
+  - apply IH.
+Qed.
+
+Lemma all_accepted_exec rs :
+  flat_map (fun c => map fst (accepted_in c)) rs = all_accepted (map to_round rs) (map cr_obs rs).
+Proof.
+  induction rs as [|c rs IH]; cbn [flat_map map all_accepted]; [reflexivity|].
+  rewrite IH. f_equal. unfold accepted_in, round_accepted. cbn [r_accepts to_round]. apply accepted_of_ids.
+Qed.
+
+Lemma flat_map_obs rs : flat_map (fun c => b_pushed (cr_obs c)) rs = flat_map b_pushed (map cr_obs rs).
+Proof. induction rs as [|c rs IH]; cbn [flat_map map]; [reflexivity|]. rewrite IH. reflexivity. Qed.
+
+Lemma firstn_app_len {A} (a b : list A) : firstn (length a) (a ++ b) = a.
+Proof. induction a as [|x a IH]; cbn [length firstn app]; [reflexivity|]. f_equal. exact IH. Qed.
+
+Lemma check_implies_fifo c : (1 <= c_n c)%nat -> check_case c = true -> fifo_ok (c_w c) (c_rounds c) = true.
+Proof.
+  intros Hn H. unfold fifo_ok. destruct (c_w c =? 1)%nat eqn:Ew; [|reflexivity].
+  apply Nat.eqb_eq in Ew. unfold check_case in H. apply (list_eqb_sound _ robs_eqb_eq) in H. rewrite Ew in H.
+  destruct (fifo_width1 (c_n c) (map to_round (c_rounds c)) Hn) as [rest E]. rewrite H in E.
+  rewrite all_accepted_exec, flat_map_obs, E, firstn_app_len. apply listN_eqb_eq. reflexivity.
+Qed.
